@@ -13,7 +13,9 @@
 (*             id or the encoding was changed (single field / single bit), *)
 (*             or the transaction is replayed on another chain / height    *)
 (*   "unauth"  only fields outside the hash / the comparison were changed  *)
-(*   "either"  a malleated but valid signature (not judged)                *)
+(*             (this includes the malleated twin (r, n-s, v^1) of the      *)
+(*             signature: it is a change of the signature of an accepted   *)
+(*             transaction, which the statement says must be rejected)     *)
 (* Theorems: cls = "auth" => ~Accept; cls in {"honest","unauth"} => Accept.*)
 (***************************************************************************)
 EXTENDS TxAuth, TLC, Json
@@ -49,7 +51,7 @@ NativeCases(h) ==
   \cup { Case(h, "hash:zero", "auth", DamageHash(b, "zero", 0), b),
          Case(h, "sign:nil", "auth", DamageSign(b, "nil", 0), b),
          Case(h, "sign:random", "auth", DamageSign(b, "random", 0), b),
-         Case(h, "sign:malleated", "either", DamageSign(b, "malleated", 0), b) }
+         Case(h, "sign:malleated", "auth", DamageSign(b, "malleated", 0), b) }
   \cup { Case(h, "sign:flip", "auth", DamageSign(b, "flip", i), b) : i \in SignBits }
   \cup { Case(h, "unauth:" \o n, "unauth", SetField(b, n, 1), b) : n \in UnauthFields }
 
